@@ -152,9 +152,13 @@ def run(ck, facts, tier):
                     ck.violation(R, "fold_inference_%s:bound->fold" % kind, b.where(m["arms"][arms[0][0]]["ln"]),
                                  "a bound variable must be replaced by its folded value and never numbered "
                                  "(fold=%s add=%s)" % (has_fold, has_add))
-    ib = need_body(ck, facts, R, "chalk_solve::infer::canonicalize::Canonicalizer::into_binders")
+    # the method of Canonicalizer that turns `free_vars` into the canonical binders - found by what it does, not by its name
+    ib_keys = [k for k, b_ in facts.bodies("chalk_solve").items() if k.startswith("chalk_solve::infer::canonicalize::Canonicalizer::")
+               and "{" not in k and b_.thir is not None and has_call(b_.thir, "CanonicalVarKinds::from_iter")]
+    ib = facts.body(ib_keys[0]) if len(ib_keys) == 1 else need_body(ck, facts, R, "chalk_solve::infer::canonicalize::Canonicalizer::into_binders")
+    ib_name = ib.key.split("::")[-1] if ib else "into_binders"
     if ib:
-        if has_call_deep(facts, ib, "InferenceTable::universe_of_unbound_var") and has_call(ib.thir, "into_iter") \
+        if has_call_deep(facts, ib, "InferenceTable::universe_of_unbound_var") and (has_call(ib.thir, "into_iter") or has_call(ib.thir, "iter")) \
                 and has_call(ib.thir, "CanonicalVarKinds::from_iter"):
             ck.ok(R, "Canonicalizer::into_binders:free_vars-in-order", "binders = free_vars.into_iter().map(universe_of_unbound_var)")
         else:
@@ -163,7 +167,7 @@ def run(ck, facts, tier):
     cz = need_body(ck, facts, R, "chalk_solve::infer::InferenceTable::canonicalize")
     if cz:
         # binders and free_vars come from the same Canonicalizer after the fold
-        dominated_by_calls(ck, R, cz, "Canonicalizer::into_binders", "try_fold_with", "into_binders", "try_fold_with(value)")
+        dominated_by_calls(ck, R, cz, "Canonicalizer::" + ib_name, "try_fold_with", "into_binders", "try_fold_with(value)")
 
     # ---------------------------------------------------------------- UNIVERSES
     R = "C16.UNIVERSES"
